@@ -211,3 +211,26 @@ REFINE = Contract(
                                                     'result.left.members[0] is old(current))')],
     note='documented usage declares bare constraints at class level (subtypeSpec = ValueRangeConstraint(13, 19))')
 CONTRACTS = CONTRACTS + [REFINE]
+
+
+# ---- comparison of scalars: a schema object has no value to compare, not even with itself (C19) ---------------------------------
+def _eq_self(ex, env):
+    v = NOVALUE if ex.choose(Bool('self.isSchema'), 'schema-object') else Int('self.value')
+    return Obj('SimpleAsn1Type', {'_value': v}, name='self')
+
+
+def _eq_other(ex, env):
+    if ex.choose(Bool('other.isSelf'), 'compared-with-itself'):
+        return env['self']
+    return Int('other')
+
+
+SIMPLE_EQ = Contract(
+    id='type.base::SimpleAsn1Type.__eq__', file=F, qual='SimpleAsn1Type.__eq__', properties=['C19'],
+    params=dict(self=PDerived(_eq_self), other=PDerived(_eq_other)),
+    globals={'schema': Bool('self.isSchema'), 'same': Bool('other.isSelf'), 'v': Int('self.value'), 'o': Int('other')},
+    ensures=[('a-value-equals-itself', 'same ==> result == True'),
+             ('values-compare-by-payload', '(not same) ==> result == (v == o)')],
+    raises={'PyAsn1Error': 'schema'},
+    note='comparison of the payload with noValue is the sentinel\'s plug (type.base::NoValue): it raises the library error')
+CONTRACTS = CONTRACTS + [SIMPLE_EQ]
